@@ -1,4 +1,4 @@
-// vt-replay {"property": "C28", "harness": "c28_cursor_forward_scan_with_empty_leaves", "module": "c28t", "feat": "sp", "test": "manual_cursor_empty_middle_leaf", "failing_roles": ["c28_cursor_enumerates_every_entry_across_leaves"], "native": {}}
+// vt-replay {"property": "C28", "harness": "c28_cursor_scan_empty_middle_leaf", "module": "c28t", "feat": "sp", "test": "manual_cursor_empty_middle_leaf", "failing_roles": ["c28_cursor_enumerates_every_entry_across_leaves"], "native": {}}
 /// Hand-written replay of the solver's counterexample class (na=2, nb=0, nc=1): leaf chain A(2 cells) -> B(empty) -> C(1 cell).
 #[test]
 fn manual_cursor_empty_middle_leaf() {
